@@ -296,7 +296,11 @@ fn run_odd_page_size(case: &Case, size: u64, pages: u64, seed: u64, flip: Option
     let d = SimDisk::new(&ctx, DEV_DISK3, image.clone(), &case.rchunk);
     let x = E57Reader::raw_xml(d);
     dg.u64(x.is_ok() as u64);
+    // raw_xml takes XML offset and length from the 48 header bytes without validating them (its
+    // documentation says so): a flip inside page 0 is not judged by content, as in `judge`
+    let flip_in_page0 = flip.map(|b| ((b % (image.len() as u64 * 8)) / 8) < size as u64).unwrap_or(false);
     match (&x, altered) {
+        (Ok(_), true) if flip_in_page0 => {}
         (Ok(b), _) => {
             if b != &want_xml {
                 return Outcome::fail("raw-xml-differs", format!("raw_xml on a file with page size {size} returned other bytes than were stored"));
